@@ -174,6 +174,40 @@ def flatten_cases(ctx, stats):
     return out
 
 
+def reassign_cases(ctx, stats):
+    """A tensor that is written, read, written again and read again (T = A*B; S = sum T; T = A+B; R = sum T) with random
+    declared orders, so that the reads need the same swizzle twice: every Einsum must be computed from the CURRENT tensor."""
+    rng = ctx.rng
+    out = []
+    stats["reassigned"] = 0
+    for _ in range(24 if ctx.quick() else 200):
+        r1, r2 = rng.sample(specgen.RANK_POOL, 2)
+        a, b = r1.lower(), r2.lower()
+        ord_ = lambda: rng.sample([r1, r2], 2)
+        decl = {"A": ord_(), "B": ord_(), "T": ord_(), "S": [rng.choice([r1, r2])], "R": [rng.choice([r1, r2])]}
+        idx = lambda t: "[" + ", ".join(x.lower() for x in decl[t]) + "]"
+        ops = [rng.choice(["*", "+"]), rng.choice(["*", "+"])]
+        if ops[0] == ops[1] == "*":
+            ops[1] = "+"
+        exprs = ["T%s = A%s %s B%s" % (idx("T"), idx("A"), ops[0], idx("B")), "S%s = T%s" % (idx("S"), idx("T")),
+                 "T%s = A%s %s B%s" % (idx("T"), idx("A"), ops[1], idx("B")), "R%s = T%s" % (idx("R"), idx("T"))]
+        if rng.random() < 0.5:
+            exprs[3] = "R%s = T%s * A%s" % (idx("R"), idx("T"), idx("A"))
+        try:
+            spec = runlib.Spec(specgen.yaml_of(decl, exprs, {}))
+            text = spec.compile()
+        except Exception as e:
+            k = type(e).__name__ + ": " + str(e)[:60]
+            stats["compile_errors"][k] = stats["compile_errors"].get(k, 0) + 1
+            continue
+        stats["reassigned"] += 1
+        for j in range(2):
+            ext = runlib.default_extents(spec, rng, 2, 4)
+            data, scal = runlib.gen_inputs(spec, ext, rng, density=rng.choice([1.0, 0.6]))
+            out.append(execlib.Case(spec, text, ext, data, scal, meta={"reassigned": True, "shape": {"terms": 1, "take": 0, "scalar": 0, "rank0": 0}}))
+    return out
+
+
 def hardware_cases(ctx, stats):
     """The same product Einsums compiled WITH an architecture binding a leader-follower / two-finger / skip-ahead intersector
     on a co-iterated rank (tools/specgen_hw.wrap_single): the loop nest must still compute the Einsum.  Executed against the
@@ -213,7 +247,12 @@ def run(ctx):
     aff = affine_cases(ctx, stats)
     flat = flatten_cases(ctx, stats)
     hw = hardware_cases(ctx, stats)
-    execlib.evaluate(cases + aff + flat + hw, "c01")
+    rea = reassign_cases(ctx, stats)
+    execlib.evaluate(cases + aff + flat + hw + rea, "c01")
+    for c in rea:
+        if not (c.result["status"] == "RAN" and c.result["out"] == "OK"):
+            ctx.violation({"kind": "wrong-result" if c.result["status"] == "RAN" else "execution-error", "reassigned_tensor": True},
+                          "a specification that writes a tensor twice computes %s" % str(c.result)[:300], c.replay())
     seen_lf = set()
     for c in hw:
         ok = c.result["status"] == "RAN" and c.result["out"] == "OK"
